@@ -37,7 +37,7 @@ func genOp(t *rapid.T) arith.Case {
 		c.Ctx = gen.Context(t, 20)
 	} else {
 		op = cheap[gen.Pick(t, len(cheap), "op")]
-		c.Ctx = gen.Context(t, 50)
+		c.Ctx = gen.Context(t, 200)
 	}
 	c.Op = op
 	switch op {
@@ -74,6 +74,12 @@ func genOp(t *rapid.T) arith.Case {
 	}
 	if gen.Pick(t, 10, "spx") == 0 {
 		c.X = gen.Any(t, c.Ctx, "sx")
+		if c.X.Form != 0 && gen.Pick(t, 3, "spheap") == 0 {
+			// a NaN or infinity whose (ignored) coefficient field is wider than 128 bits, as the
+			// exported fields allow and as an overflowed 39-digit value leaves behind: the
+			// copy of it that an operation returns must not share its storage
+			c.X.Coeff = gen.DigitsN(t, rapid.IntRange(39, 60).Draw(t, "sphl"), gen.Pick(t, 10, "sphs"), "sph")
+		}
 	}
 	if gen.Pick(t, 25, "atlimit") == 0 && c.X.Form == 0 {
 		// operands at the package exponent limits: calls that fail there must not leave
